@@ -145,7 +145,8 @@ class BaseIntervalScorer(BaseEstimator):
                 f"All cuts must be within the fitted data, i.e. in [0, {n_samples}]."
             )
 
-        values = self._evaluate(cuts)
+        # The kernels do signed arithmetic on the cuts: unsigned cuts would wrap around.
+        values = self._evaluate(cuts.astype(np.int64, copy=False))
         return values
 
     def _evaluate(self, cuts: np.ndarray) -> np.ndarray:
